@@ -54,6 +54,30 @@ def outcome(text, lexer, parser, tokens=None):
         return ("foreign", type(e).__name__, str(e)[:200])
 
 
+def near_twin(rng, t):
+    """The same filter except for ONE small detail a too-coarse cache key would ignore:
+    the namespace of one identifier (also of a path root), the letter case of one name, or
+    one path segment."""
+    from ..shrink import _positions, _replace_at
+    ids = [(pos, x) for pos, x in _positions(t) if x[0] == "id"]
+    attrs = [(pos, x) for pos, x in _positions(t) if x[0] == "attr"]
+    r = rng.random()
+    if ids and r < 0.6:
+        pos, x = rng.choice(ids)
+        ns = rng.choice([("Shop",), ("ns",), ("my", "pkg")]) if not x[2] or rng.random() < 0.3 else ()
+        if ns == x[2]:
+            ns = ("other",)
+        return _replace_at(t, pos, ("id", x[1], ns))
+    if ids and r < 0.8:
+        pos, x = rng.choice(ids)
+        if x[1].swapcase() != x[1]:
+            return _replace_at(t, pos, ("id", x[1].swapcase(), x[2]))
+    if attrs:
+        pos, x = rng.choice(attrs)
+        return _replace_at(t, pos, ("attr", x[1], x[2] + "2"))
+    return None
+
+
 def corpus(rng, n):
     """Mixed corpus: (class, text)."""
     o = fullgen.Opts()
@@ -64,6 +88,13 @@ def corpus(rng, n):
         if len(text) > 400:
             continue
         out.append(("valid", text))
+        if rng.random() < 0.4:
+            try:
+                t2 = near_twin(rng, t)
+            except Exception:
+                t2 = None
+            if t2 is not None and t2 != t:
+                out.append(("twin", to_text(t2, rng.choice(["min", "full"]))))
         toks = _TOK.findall(text)
         r = rng.random()
         if r < 0.25:
